@@ -88,7 +88,9 @@ theorem seqOf_slice {t : Ty} {v : V} {xs : List V} (h : extractSlice t v = some 
       · cases h
   · split at h
     · cases h; exact Or.inr hj
-    · cases h
+    · split at h
+      · cases h; exact Or.inr hj
+      · cases h
   · split at h
     · cases h; cases j <;> simp [getIdx] at hj
     · cases h
